@@ -310,6 +310,17 @@ def in_range(seed, n):
                 worst = max(worst, min(maxdiff(qq, Q[k_ + 1]), maxdiff(qq, -Q[k_ + 1])))
             if not worst <= m * (th ** 3 / 12.0) + 1e-12:
                 t.fail("C08|angular_velocities|do-not-integrate-back", {"rate": rate, "dt": dt, "steps": m, "err": worst, "bound": m * th ** 3 / 12.0})
+            # the same sequence held in other ways: scalar-last storage, a sequence with its signs flipped half-way (the same attitudes),
+            # and a copy whose rows are not normalised (versors=False keeps them as given): the rates are those of the attitudes
+            for how, mk in (("order=S", lambda: QuaternionArray(np.roll(Q[:m + 1], -1, axis=1), order="S")),
+                            ("list-of-rows", lambda: QuaternionArray(Q[:m + 1].tolist()))):
+                t.calls += 1
+                o = core.outcome(lambda: np.asarray(mk().angular_velocities(dt), dtype=float))
+                if o[0] != "ok":
+                    t.fail("C08|angular_velocities[%s]|raises-%s" % (how, o[1]), {"rate": rate, "dt": dt, "steps": m, "err": o[2]})
+                elif not (o[1].shape == wrec.shape and maxdiff(o[1], wrec) <= 1e-9 * (1.0 + float(np.max(np.abs(wrec))))):
+                    t.fail("C08|angular_velocities[%s]|differs-from-the-rates-of-the-same-attitudes" % how,
+                           {"rate": rate, "dt": dt, "steps": m, "got": o[1][:3], "want": wrec[:3]})
     # orbits in 2O: |w| dt in {pi/2, 2pi/3, pi}
     for u, order in (((1, 1, 0, 0), 8), ((1, 1, 1, 1), 6), ((0, 1, 0, 0), 4), ((1, 0, -1, 0), 8), ((1, -1, 1, -1), 6)):
         for steps in (8, 50, 400):
